@@ -403,7 +403,8 @@ class AppTracker(object):
             behind = {}
             for s in ctx["msgseqs"]:
                 d = ring_diff(top, s)
-                behind.setdefault(s, d)
+                # (one datagram can carry several copies of a re-queued message: the worst position counts)
+                behind[s] = max(behind.get(s, d), d)
                 if d < 0:
                     top = s
             if seqnum is not None and int(seqnum) in behind:
